@@ -3,6 +3,7 @@
 from __future__ import annotations
 
 import ast
+import copy
 
 from hypothesis import strategies as st
 
@@ -56,12 +57,15 @@ def check(rec, case):
     parts = case["parts"]
     kinds = case.get("kinds", ["?"] * len(parts))
     bodies = []
+    alone = {}
     for p in parts:
-        o = outcome(p, "exec")
+        if p not in alone:
+            alone[p] = outcome(p, "exec")
+        o = alone[p]
         if o.kind != "tree":
             rec.exclude("part-does-not-parse-alone")
             return
-        bodies.append(o.tree.body)
+        bodies.append(copy.deepcopy(o.tree.body) if parts.count(p) > 1 else o.tree.body)
     whole_src = "".join(parts)
     nt = False
     for i, k in enumerate(kinds[:-1]):
@@ -151,6 +155,18 @@ def search(rec, ctx):
         check(rec, {"parts": [p[1] for p in ps], "kinds": [p[0] for p in ps]})
 
     drive(st.randoms(use_true_random=False), gen, ctx.budget(12000, 150000), ctx.hseed("lists"))
+
+    # a few very long lists (hundreds to a thousand parts drawn from a handful of short statements): whatever the parser
+    # accumulates per statement -- bracket bookkeeping, memo entries, cached lines -- must not reach the later ones
+    SHORT = [
+        ("python", "x = 1\n"), ("python", "value = compute(alpha, beta)[index] + offset\n"), ("python", "r = f(g(h(a, b), c), d(e(1)))\n"), ("fstring", "print(f'{a:>4} {b:{w}} {c!r:^{n}}')\n"),
+        ("fstring", "s = f'{x:.2f}|{y:>{w}}|'\n"), ("subproc", "$(echo a b)\n"), ("call-macro", "m!(p q, r)\n"), ("python", "if a:\n    b = [1, 2, (3, 4)]\n"), ("env", "$V = f'{k=}'\n"), ("python", "d = {'k': [v for v in w if v]}\n"),
+    ]
+    lrng = ctx.rng("long-lists")
+    if ctx.k < (8 if ctx.thorough else 3):
+        n = lrng.choice([250, 600, 1100]) if ctx.k else 1100
+        kinds_ = [SHORT[lrng.randrange(len(SHORT))] if lrng.random() < 0.7 else SHORT[lrng.choice([0, 2, 3])] for _ in range(n)]
+        check(rec, {"parts": [p for _, p in kinds_], "kinds": [k for k, _ in kinds_]})
 
 
 def candidates(case):
